@@ -554,6 +554,16 @@ func callSSA(i *interpreter, caller *frame, callpos token.Pos, fn *ssa.Function,
 			if res.Len() == 0 {
 				return nil
 			}
+			if res.Len() == 1 {
+				// builders are chained (Logger().WithError(..).Infof(..)): hand out
+				// a dummy object rather than nil so that embedded-field selection works
+				if pt, ok := res.At(0).Type().Underlying().(*types.Pointer); ok {
+					if _, isStruct := pt.Elem().Underlying().(*types.Struct); isStruct {
+						cell := zero(pt.Elem())
+						return &cell
+					}
+				}
+			}
 			return zero(res)
 		}
 		if o := fn.Origin(); o != nil {
@@ -754,6 +764,12 @@ func (i *interpreter) global(fr *frame, g *ssa.Global) *value {
 		}
 	}
 	cell := zero(mustDeref(g.Type()))
+	if g.Pkg != nil && g.Pkg.Pkg.Path() == "go.etcd.io/bbolt" && g.Name() == "DefaultOptions" {
+		// bbolt's init is not run; its DefaultOptions is only ever copied and
+		// passed to Open (which the model ignores): a zero Options value
+		opts := zero(mustDeref(mustDeref(g.Type())))
+		cell = &opts
+	}
 	i.globals[g] = &cell
 	return &cell
 }
